@@ -740,8 +740,22 @@ func runC06(r *vk.Run) {
 		if len(idle) > 0 {
 			c.Count("regexp_idle_named_groups", 1)
 		}
+		// a group that takes part in the match and captures the empty string: the field is there and
+		// it is empty, so a label of that name can no longer hold an older value
+		var pre map[string]string
+		if len(idle) == 0 && strings.HasPrefix(src, "^") && rng.Bool() {
+			src = "^(?P<emp>Q*)" + src[1:]
+			pre = map[string]string{"emp": "stale"}
+			c.Count("regexp_empty_captures", 1)
+		}
 		stage := "| regexp " + quoteLogQL(src)
-		got, gotLine, msg := c06Eval(c, line, stage, nil)
+		got, gotLine, msg := c06Eval(c, line, stage, pre)
+		if pre != nil {
+			if v := got["emp"]; msg == "" && v != "" {
+				msg = fmt.Sprintf("group emp captured the empty string but label emp reads %q", v)
+			}
+			delete(got, "emp")
+		}
 		if msg == "" && gotLine != line {
 			msg = "line changed"
 		}
